@@ -16,7 +16,7 @@ Oracle: the servers see exactly the chain, in order, each hop at the right serve
 right PATH_INFO and the right query arguments (parse_qsl of QUERY_STRING) and a Host header
 naming that server's port; the client delivers exactly one response, the final 200, whose
 `redirects` list has one entry per hop, in order, with that hop's status and Location.
-TLS part (https origin, repository test certificates): an https -> https redirect is
+TLS part (repository test certificates): an https -> https and an http -> https redirect are
 followed, an https -> http redirect is refused: the plain server never sees a request and no
 final response from it is delivered.
 
@@ -38,8 +38,8 @@ LEVEL = "exploration"
 RULE = ("Hypothesis-generated redirect chains of length 0-4 over 2-3 real loopback Valet servers: per hop a status "
         "from {301,302,303,307}, a Location style (absolute 127.0.0.1 / absolute localhost / absolute-path relative / "
         "path-relative incl. '../'), a target server, a unicode path and query arguments with reserved characters; "
-        "a real redirectable Patron issues the first GET; plus a small TLS part (https->https followed, https->http "
-        "refused) with the repository test certificates. non-trivial = the chain contains a relative Location or a "
+        "a real redirectable Patron issues the first GET; plus a small TLS part (https->https and http->https "
+        "followed, https->http refused) with the repository test certificates. non-trivial = the chain contains a relative Location or a "
         "port change; distinct = distinct generated chain")
 ASSUMPTIONS = [
     "urllib.parse.urljoin is the reference for resolving a relative Location against the request URL (RFC 3986)",
@@ -262,8 +262,20 @@ def run_case(case):
 
 
 # ------------------------------------------------------------------------------ TLS part
+TLS_TARGETS = [("/h1-t", [["k", "v w"]]), ("/h1-x y/z", []), ("/h1-é", [["a", "1&2=3"], ["b", ""]]),
+               ("/d/h1-%", [["q", "☃"]]), ("/h1-a+b", [["p", "/?#"]]), ("/h1-;", [["n", "0"]])]
+
+
 def run_tls(case):
-    """case = {"tls": "downgrade" | "secure", "style": "abs", "code": 302}.  (fails, inconclusive)"""
+    """case = {"tls": "downgrade" | "secure" | "upgrade", "code": 302, "target": index}.  (fails, inconclusive)
+
+    downgrade: https origin -> Location http://...   must be refused (plain server sees nothing)
+    secure:    https origin -> Location https://...  followed over a new TLS connection
+    upgrade:   http origin  -> Location https://...  followed over TLS; the redirected connector
+               has no TLS parameters of its own, so the process default trust store is pointed
+               at the repository's test CA (SSL_CERT_FILE) for the duration of the case
+    """
+    import ssl
     from ioflo.base import storing
     from ioflo.aio.http import clienting
     from ioflo.aid.odicting import odict
@@ -271,26 +283,40 @@ def run_tls(case):
     store = storing.Store(stamp=0.0)
     log, table, valets = [], {}, []
     patron = None
+    kind = case["tls"]
+    tpath, tq = TLS_TARGETS[case.get("target", 0) % len(TLS_TARGETS)]
+    tail = quote(tpath) + (("?" + urlencode([(k, v) for k, v in tq])) if tq else "")
+    old_env = os.environ.get("SSL_CERT_FILE")
     try:
-        v0, p0 = httppipe.loopback_valet_tls(make_app(0, table, log), certdir, store=store)
+        if kind == "upgrade":
+            os.environ["SSL_CERT_FILE"] = certdir + "/server.pem"
+            v0, p0 = httppipe.loopback_valet(make_app(0, table, log), store=store)
+        else:
+            v0, p0 = httppipe.loopback_valet_tls(make_app(0, table, log), certdir, store=store)
         valets.append(v0)
-        if case["tls"] == "secure":
+        if kind == "secure":
             v1, p1 = httppipe.loopback_valet_tls(make_app(1, table, log), certdir, store=store)
-            loc = "https://localhost:%d/h1-t?k=v+w" % p1
+            loc = "https://localhost:%d%s" % (p1, tail)
+        elif kind == "upgrade":
+            v1, p1 = httppipe.loopback_valet_tls(make_app(1, table, log), certdir, store=store, client_cert=False)
+            loc = "https://localhost:%d%s" % (p1, tail)
         else:
             v1, p1 = httppipe.loopback_valet(make_app(1, table, log), store=store)
-            loc = "http://localhost:%d/h1-t?k=v+w" % p1
+            loc = "http://localhost:%d%s" % (p1, tail)
         valets.append(v1)
         table[(0, "/h0-s")] = {"kind": "redirect", "code": case["code"], "location": loc, "bodylen": 0}
-        table[(1, "/h1-t")] = {"kind": "final", "pos": 1}
-        patron = clienting.Patron(hostname="localhost", port=p0, scheme="https", store=store, bufsize=65536,
-                                  certedhost="localhost", keypath=certdir + "/client_key.pem",
-                                  certpath=certdir + "/client_cert.pem", cafilepath=certdir + "/server.pem")
+        table[(1, tpath)] = {"kind": "final", "pos": 1}
+        if kind == "upgrade":
+            patron = clienting.Patron(hostname="127.0.0.1", port=p0, store=store, bufsize=65536)
+        else:
+            patron = clienting.Patron(hostname="localhost", port=p0, scheme="https", store=store, bufsize=65536,
+                                      certedhost="localhost", keypath=certdir + "/client_key.pem",
+                                      certpath=certdir + "/client_cert.pem", cafilepath=certdir + "/server.pem")
         patron.open()
         patron.request(method="GET", path="/h0-s", qargs=odict(), headers=odict([("Accept", "*/*")]))
         state, rounds, ex = follow(patron, valets, max_rounds=6000)
         seen1 = [e for e in log if e[0] == 1]
-        if case["tls"] == "downgrade":
+        if kind == "downgrade":
             fails = []
             if not [e for e in log if e[0] == 0]:
                 return [], True                      # TLS handshake never completed here: inconclusive
@@ -300,18 +326,27 @@ def run_tls(case):
                 fails.append(("https-downgraded", "a final response from the plain http server was delivered"))
             return fails, False
         if state == "raised":
-            return [(httppipe.exc_sig(ex) + "/tls", "https -> https redirect raised %r" % (ex,))], False
+            if kind == "upgrade" and isinstance(ex, ssl.SSLError):
+                return [], True                      # default trust store not configurable here: inconclusive
+            return [("%s/tls-%s" % (httppipe.exc_sig(ex), kind), "%s redirect to %r raised %r" % (kind, loc, ex))], False
         if state == "bound":
             return [], True
         fails = []
-        got = [(s, p, parse_qsl(q)) for s, m, p, q, _ in log]
-        if got != [(0, "/h0-s", []), (1, "/h1-t", [("k", "v w")])]:
-            fails.append(("wrong-hop/tls", "servers saw %r" % (got,)))
+        got = [(s, p, parse_qsl(q, keep_blank_values=True)) for s, m, p, q, _ in log]
+        want = [(0, "/h0-s", []), (1, tpath, [(k, v) for k, v in tq])]
+        if got != want:
+            fails.append(("wrong-hop/tls-%s" % kind, "servers saw %r, expected %r (Location %r)" % (got, want, loc)))
         resp = patron.responses[0]
-        if resp.get("status") != 200 or [r.get("status") for r in resp.get("redirects") or []] != [case["code"]]:
-            fails.append(("final-response/tls", "final %r redirects %r" % (resp.get("status"), resp.get("redirects"))))
+        reds = [(r.get("status"), (r.get("headers") or {}).get("location")) for r in resp.get("redirects") or []]
+        if resp.get("status") != 200 or reds != [(case["code"], loc)]:
+            fails.append(("final-response/tls-%s" % kind, "final status %r redirects %r, expected 200 and %r"
+                          % (resp.get("status"), reds, [(case["code"], loc)])))
         return fails, False
     finally:
+        if old_env is None:
+            os.environ.pop("SSL_CERT_FILE", None)
+        else:
+            os.environ["SSL_CERT_FILE"] = old_env
         httppipe.close_all([patron] if patron else [], valets)
 
 
@@ -346,25 +381,27 @@ def plan(tier):
 def work(shard, seed, tier):
     acc = Acc()
     if shard["part"] == "tls":
-        reps = 1 if tier == "quick" else 6
-        for rep in range(reps):
-            for kind in ("downgrade", "secure"):
-                for code in ((302,) if tier == "quick" else (301, 302, 303, 307)):
-                    case = {"tls": kind, "code": code, "rep": rep}
-                    try:
-                        fails, inconclusive = run_tls(case)
-                    except Exception as ex:   # noqa: BLE001  TLS not usable in this environment
-                        acc.note("TLS part not executable here: %r" % (ex,))
-                        acc.label("tls-unavailable")
-                        continue
-                    acc.case(key=("tls", kind, code, rep), nontrivial=True,
-                             classes=["tls:" + kind] + (["tls-inconclusive"] if inconclusive else []), sample=case)
-                    if inconclusive:
-                        acc.budget_hit = True
-                    for sig, what in fails:
-                        acc.fail(sig, what, case)
+        combos = [(t, c) for t in range(len(TLS_TARGETS)) for c in sorted(CODES)]
+        if tier == "quick":
+            combos = [combos[(seed + 5 * k) % len(combos)] for k in range(2)]
+        for target, code in combos:
+            for kind in ("downgrade", "secure", "upgrade"):
+                case = {"tls": kind, "code": code, "target": target}
+                try:
+                    fails, inconclusive = run_tls(case)
+                except Exception as ex:   # noqa: BLE001  TLS not usable in this environment
+                    acc.note("TLS part not executable here: %r" % (ex,))
+                    acc.label("tls-unavailable")
+                    continue
+                acc.case(key=("tls", kind, code, target), nontrivial=True,
+                         classes=["tls:" + kind] + (["tls-inconclusive"] if inconclusive else []), sample=case)
+                if inconclusive:
+                    acc.budget_hit = True
+                    acc.note("a TLS case was inconclusive (handshake/trust store/bound)")
+                for sig, what in fails:
+                    acc.fail(sig, what, case)
         return acc
-    n = 25 if tier == "quick" else 75
+    n = 16 if tier == "quick" else 75
 
     def execute(case):
         nt, cls = classify(case)
